@@ -365,7 +365,7 @@ def is_matrix(m, kind):
     return sp.issparse(m) if kind == "coo_matrix" else isinstance(m, np.ndarray)
 
 
-def exists(*args):
+def exists(*args, hints=None):
     *tys, lam = args
     import itertools as _it
     return any(lam(*vals) for vals in _it.product(*[_domain(t) for t in tys]))
@@ -508,7 +508,13 @@ def local(name):
 
 
 def vd_pos(db, v, p):
-    return None
+    d = getattr(db, "variant_dict", None)
+    if d is None:
+        d = getattr(db, "seq_dict", None)
+    try:
+        return list(d[v]).index(int(p))
+    except Exception:
+        return -1
 
 
 def common_del_h(a, b, k):
@@ -555,3 +561,41 @@ def valid_search_args(seqs, max_edits, max_returns, n_cpu, cd, mcd, output_type,
 
 def with_witness(*args):
     return args[-1]
+
+
+def over_alphabet(s, alphabet):
+    return all(c in alphabet for c in s)
+
+
+def one_edit_set(x, alphabet):
+    out = set()
+    for i in range(len(x)):
+        out.add(x[:i] + x[i + 1:])
+        for a in alphabet:
+            if a != x[i]:
+                out.add(x[:i] + a + x[i + 1:])
+    for i in range(len(x) + 1):
+        for a in alphabet:
+            out.add(x[:i] + a + x[i:])
+    out.discard(x)
+    return out
+
+
+def one_sub_set(x, alphabet):
+    return {x[:i] + a + x[i + 1:] for i in range(len(x)) for a in alphabet if a != x[i]}
+
+
+def n1(s, alphabet, y):
+    return y in one_edit_set(s, alphabet)
+
+
+def n1h(s, alphabet, y):
+    return y in one_sub_set(s, alphabet)
+
+
+def lev_pred(x, y):
+    return None
+
+
+def ham_pred(x, y):
+    return None
